@@ -116,7 +116,19 @@ func classifyRejection(cond ssa.Value, neg bool) (field, kind string) {
 		case *ssa.Field:
 			walk(x.X, d+1)
 		case *ssa.IndexAddr:
-			walk(x.X, d+1)
+			// an element of a list: the list's own field is not a constrained field (ranging by value or by index gives
+			// the same key)
+			c := x.X
+			if u, ok := c.(*ssa.UnOp); ok && u.Op == token.MUL {
+				c = u.X
+			}
+			if fa, ok := c.(*ssa.FieldAddr); ok {
+				walk(fa.X, d+1)
+			} else if fl, ok := c.(*ssa.Field); ok {
+				walk(fl.X, d+1)
+			} else {
+				walk(x.X, d+1)
+			}
 		case *ssa.BinOp:
 			walk(x.X, d+1)
 			walk(x.Y, d+1)
